@@ -923,6 +923,7 @@ func freePort() int {
 
 type serverProc struct {
 	addr    string
+	pid     int
 	logPath string
 	stop    func() (exited bool, log string)
 	alive   func() bool
@@ -957,7 +958,7 @@ func startServerWrapped(r *vf.Run, wrap []string, bin, index string, extra []str
 	}
 	exited := make(chan struct{})
 	go func() { _ = cmd.Wait(); close(exited) }()
-	sp := &serverProc{addr: addr, logPath: logPath}
+	sp := &serverProc{addr: addr, logPath: logPath, pid: cmd.Process.Pid}
 	sp.alive = func() bool {
 		select {
 		case <-exited:
